@@ -187,6 +187,11 @@ Proof.
     + destruct (r_mu (getr s r)); [discriminate|]. inversion H; subst. split; [exact Sr|].
       intros t Ht. destruct (r_comp (getr s r)); simpl in Ht; [destruct Ht as [<-|[]]; single_ok | contradiction].
     + inversion H; subst. simpl. rewrite Na. split; [split; [intros; discriminate | exact Sr] | intros t []].
+  - (* FOutAdd *)
+    destruct (Nat.ltb n (length (s_nodes s))); [|discriminate]. unfold g_add_out_released in H. inversion H; subst. split; [exact Sr|].
+    intros t Ht. destruct (n_inv (getn (s_nodes s) n)), (is_nil (n_out (getn (s_nodes s) n))); simpl in Ht;
+      repeat (destruct Ht as [<-|Ht]); try contradiction; single_ok.
+  - inversion H; subst. split; [exact Sr | intros t []].
 Qed.
 
 Definition tasks_ok (s : state) : Prop :=
@@ -292,6 +297,8 @@ Proof.
   - simpl in H. destruct (Nat.ltb r (length (s_rrs s))); [|discriminate].
     destruct (r_clock (getr s r)); [discriminate|]. inversion H; subst; clear H. exact Inv.
   - simpl in H. destruct (Nat.eqb (n_timer (getN s n)) 1); [|discriminate]. inversion H; subst; clear H.
+    apply spawn_tasks_ok; [exact Inv | intros t [<-|[]]; single_ok].
+  - simpl in H. destruct (Nat.ltb slot (length (s_slots s))); [|discriminate]. inversion H; subst; clear H.
     apply spawn_tasks_ok; [exact Inv | intros t [<-|[]]; single_ok].
 Qed.
 
